@@ -852,9 +852,10 @@ class VM:
             result = self.stack.pop() if self.stack else UNDEFINED
             popped_frame = self.call_stack.pop()
             self._discard_frame_state(popped_frame)
-            # For constructor calls, return the new object unless result is an object
+            # For constructor calls, return the new object unless result is an
+            # object (a function is one)
             if popped_frame.is_constructor_call:
-                if not isinstance(result, JSObject):
+                if not isinstance(result, (JSObject, JSFunction)):
                     result = popped_frame.new_target
             self.stack.append(result)
 
